@@ -116,3 +116,24 @@ def scaled_potdef(pd, k):
     """the definition of k * pd for r >= 0"""
     const = {"ranges": [{"m": ">=", "s": 0.0, "body": {"k": "form", "name": "constant", "p": [k]}}]}
     return {"ranges": [{"m": ">=", "s": 0.0, "body": {"k": "mod", "m": "product", "args": [const, pd]}}]}
+
+
+def _intify(v):
+    try:
+        if isinstance(v, float) and v == int(v) and abs(v) < 2.0 ** 53:
+            return int(v)
+    except (OverflowError, ValueError):
+        pass
+    return v
+
+
+def int_returns(f):
+    """the same function written the way users write plain Python callables: a Python int wherever the value is a
+    whole number ('if r == 0: return 0', 'return 2' on a plateau), floats elsewhere; deriv / deriv2 kept and treated alike"""
+    def g(r):
+        return _intify(f(r))
+    if hasattr(f, "deriv"):
+        g.deriv = lambda r: _intify(f.deriv(r))
+    if hasattr(f, "deriv2"):
+        g.deriv2 = lambda r: _intify(f.deriv2(r))
+    return g
